@@ -317,12 +317,14 @@ theorem wellformed_roundtrip_partial (f : Features) (r : Response) (op : Nat) (b
 /-! ### non-vacuity: concrete frames -/
 
 /-- READY frame `84 00 0000 02 00000000` decodes. -/
-example : ∃ d, (decode {} none none [0x84, 0, 0, 0, 0x02, 0, 0, 0, 0]).1 = .ok d := by
-  refine ⟨_, ?_⟩; decide
+example : (match (decode {} none none [0x84, 0, 0, 0, 0x02, 0, 0, 0, 0]).1 with
+    | .ok d => d.hdr.opcode == 2 && d.ext.warnings.isEmpty
+    | .err _ => false) = true := by
+  decide +kernel
 
 /-- A RESULT/Rows body announcing `i32::MAX` columns (the F4 input) is an error and requests at most 3 slots. -/
 example : (decode {} none none [0x84, 0, 0, 0, 0x08, 0, 0, 0, 12, 0, 0, 0, 2, 0, 0, 0, 0, 0x7f, 0xff, 0xff, 0xff]).2.alloc ≤ 3 := by
-  decide
+  decide +kernel
 
 /-- The hypotheses of the round trip are satisfiable on a non-trivial value. -/
 example : wfSimple (.authChallenge (some [1, 2, 3])) ∧ encSimple (.authChallenge (some [1, 2, 3])) = some (0x0E, [0, 0, 0, 3, 1, 2, 3]) := by
